@@ -177,3 +177,42 @@ Lemma big_model_is_seq_projection :
     = Some (lts_batches 3 [STick; SAdd 1; SAdd 2; SAdd 3; SAdd 4; SAdd 5; SAdd 6; SAdd 7; STick; SFlush;
                            SAdd 8; SAdd 9; SAdd 10; STick; STick; SAdd 11; SFlush]).
 Proof. split; vm_compute; reflexivity. Qed.
+
+(* ---------- documented defaults; an executor's bounds depend on its own configuration only ---------- *)
+Lemma link_defaults :
+  C16_Gen.defaultBulkTasks = 1000 /\ C16_Gen.defaultChunkSize = 1024 * 1024 /\
+  C16_Gen.defaultFlushInterval = 1000000000 /\
+  default_bulk_tasks = C16_Gen.defaultBulkTasks /\ default_chunk_size = C16_Gen.defaultChunkSize /\
+  default_interval = C16_Gen.defaultFlushInterval.
+Proof. repeat split; reflexivity. Qed.
+
+(* constructors: fresh default options, then the caller's options, then a PeriodicalExecutor of its own *)
+Lemma link_sk_constructors :
+  C16_Gen.sk_NewBulkExecutor = ["newBulkOptions"; "opt"; "NewPeriodicalExecutor"; "return"]%string /\
+  C16_Gen.sk_NewChunkExecutor = ["newChunkOptions"; "opt"; "NewPeriodicalExecutor"; "return"]%string.
+Proof. split; reflexivity. Qed.
+
+(* a BulkExecutor created without options never executes more than 1000 tasks in a batch, and a
+   ChunkExecutor created without options exceeds 1 MiB by less than its last task -- whatever other
+   executors exist: the LTS of one executor has no state outside its own configuration *)
+Lemma link_default_bulk_bound cf s : maxv cf = C16_Gen.defaultBulkTasks -> (forall x, 0 <= sz cf x) ->
+  chunk cf = false -> reachable cf s -> Forall (fun b => Z.of_nat (List.length b) <= 1000) (s_executed s).
+Proof.
+  intros Hm Hs Hc R. pose proof (bulk_bound cf s) as B. rewrite Hm in B.
+  exact (B ltac:(vm_compute; discriminate) Hs Hc R).
+Qed.
+
+Lemma link_default_chunk_bound cf s : maxv cf = C16_Gen.defaultChunkSize -> (forall x, 0 <= sz cf x) ->
+  chunk cf = true -> reachable cf s -> Forall (chunk_bounded (sz cf) 1048576) (s_executed s).
+Proof.
+  intros Hm Hs Hc R. pose proof (chunk_bound cf s) as B. rewrite Hm in B.
+  exact (B ltac:(vm_compute; discriminate) Hs Hc R).
+Qed.
+
+(* stat.Metrics: log = writeReport (+ optional stat log line); writeReport = blocking Lock, Write, Unlock
+   (WWant / WHold of C16.Model.wstep); SetReportWriter = Lock, Unlock (WWantSet / WSet) *)
+Lemma link_sk_report_delivery :
+  C16_Gen.sk_m_writeReport = ["writeLock.Lock"; "defer:writeLock.Unlock"; "reportWriter.Write"; "logx.Error"]%string /\
+  C16_Gen.sk_m_log = ["writeReport"; "logEnabled.True"; "logx.Statf"]%string /\
+  C16_Gen.sk_m_SetReportWriter = ["writeLock.Lock"; "writeLock.Unlock"]%string.
+Proof. repeat split; reflexivity. Qed.
